@@ -115,7 +115,7 @@ func (r *exploreRig) RoundTrip(req *http.Request) (*http.Response, error) {
 		return nil, fmt.Errorf("scripted probe failure")
 	}
 	return &http.Response{StatusCode: 200, Status: "200 OK", Header: http.Header{"Content-Type": []string{"text/plain"}},
-		Body: io.NopCloser(strings.NewReader(expoPayload(res.Scraped, res.Total, 0))), Request: req}, nil
+		Body: io.NopCloser(strings.NewReader(expoPayload(res.Scraped, res.Total, 0, ""))), Request: req}, nil
 }
 
 func jobOfHash(h uint64) int { return int(h % 2) }
@@ -424,7 +424,7 @@ func (c *countingRT) RoundTrip(req *http.Request) (*http.Response, error) {
 	c.n[req.URL.Host]++
 	c.mu.Unlock()
 	return &http.Response{StatusCode: 200, Status: "200 OK", Header: http.Header{"Content-Type": []string{"text/plain"}},
-		Body: io.NopCloser(strings.NewReader(expoPayload(3, 5, 0))), Request: req}, nil
+		Body: io.NopCloser(strings.NewReader(expoPayload(3, 5, 0, ""))), Request: req}, nil
 }
 
 // exploreFlood: more undiscovered targets are asked for at once than the explorer's queue holds;
